@@ -284,7 +284,11 @@ DIM_FLAVOURS = {
     # then on the arguments ('warm'): clauses 1 and 2 for the LATER call, and what the caller holds from the earlier call
     # (its result, its arguments) is not changed by the later call
     'twice': 'sequence', 'warm': 'sequence',
+    # environment: the output file of save() exists already (overwrite=True); the other member of this family, another
+    # PYTHONHASHSEED in a new interpreter, is not a pool flavour (HASHSEED below)
+    'exists': 'environment',
 }
+FAMILIES = ('typed', 'units', 'containers', 'groups', 'sizes', 'sequence', 'environment')
 SEQ_FLAVOURS = ('twice', 'warm')
 DIM_INT = {'int16': np.int16, 'uint8': np.uint8, 'int64': np.int64}
 DIM_SCALE = {'tiny': 1e-20, 'huge': 1e+9}
@@ -683,6 +687,8 @@ def build_call(rec, P, variant):
             args[pname] = given.get(pname, {})
             continue
         args[pname] = given[pname] if pname in given else auto_arg(rec, pname, param, P, variant, args)
+    if P.flavour in DIM_FLAVOURS:
+        _dim_args(P, args)
     pos = [p for p, q in sig.parameters.items() if q.kind in (q.POSITIONAL_ONLY, q.POSITIONAL_OR_KEYWORD) and p != 'self']
     kwo = [p for p, q in sig.parameters.items() if q.kind == q.KEYWORD_ONLY]
 
@@ -696,6 +702,53 @@ def build_call(rec, P, variant):
             return rec.func(args['self'], *a, **k)
         return rec.func(*a, **k)
     return call, args
+
+
+TUPLE_ARGS = ('idx', 'value', 'new_order', 'indices', 'pattern_idx', 'theta', 'category_vector', 'events', 'category_selector',
+              'category_idxs', 'category_1_idxs', 'category_2_idxs', 'all_patterns', 'p')
+
+
+def _map_labels(o, depth=0):
+    """flavour 'intlab': the label VALUES inside a plain argument ('c3' -> 3); names of descriptors are not of that form"""
+    if isinstance(o, str):
+        return _intlab(o)
+    if depth > 3:
+        return o
+    if isinstance(o, (list, tuple)):
+        return type(o)(_map_labels(x, depth + 1) for x in o)
+    if isinstance(o, dict):
+        return {k: _map_labels(x, depth + 1) for k, x in o.items()}
+    if isinstance(o, np.ndarray) and o.dtype.kind == 'U' and o.size and all(_intlab(x) is not x for x in o.ravel().tolist()):
+        return np.array([_intlab(x) for x in o.ravel().tolist()]).reshape(o.shape)
+    return o
+
+
+def _dim_args(P, args):
+    """dimension flavours: the plain (non-object) arguments follow the flavour too.
+    'f32' / 'tiny' / 'huge': bare float64 arrays (and lists of them) that do not come from the data recipes of the pool;
+    'tuple': index-like list arguments as tuples;  'intlab': label values as int."""
+    fl = P.flavour
+
+    def arr(a):
+        if isinstance(a, np.ndarray) and a.dtype == np.float64 and id(a) not in P.made and a.size:
+            return a.astype(np.float32) if fl == 'f32' else a * DIM_SCALE[fl]
+        return a
+    for n in list(args):
+        a = args[n]
+        if n == 'self' or _is_rsa(a):
+            continue
+        if fl == 'f32' or fl in DIM_SCALE:
+            if n in ('low', 'up', 'bins', 'mask', 'threshold', 'radius'):      # thresholds / bin edges in the unit of other arguments
+                continue
+            if isinstance(a, np.ndarray):
+                args[n] = arr(a)
+            elif isinstance(a, list) and a and all(isinstance(x, np.ndarray) for x in a):
+                args[n] = [arr(x) for x in a]
+        elif fl == 'tuple':
+            if n in TUPLE_ARGS and isinstance(a, list) and not any(isinstance(x, (list, dict, np.ndarray)) for x in a):
+                args[n] = tuple(a)
+        elif fl == 'intlab':
+            args[n] = _map_labels(a)
 
 
 SPECS = {}
@@ -855,6 +908,19 @@ def _s_load_rdm(P, v, rec):
     fn = P.path('in_rdm.' + ('pkl' if v else 'h5'))
     P.rdms().save(fn, file_type='pkl' if v else 'hdf5', overwrite=True)
     return dict(filename=fn)
+
+
+@spec('rdm.rdms.RDMs.save', 'data.base.DatasetBase.save', 'inference.result.Result.save')
+def _s_save(P, v, rec):
+    """v0 / v1: as the default recipe (hdf5 / pkl into a new file); flavour 'exists', v2 / v3: the output file EXISTS already"""
+    if v >= (4 if P.flavour == 'exists' else 2):
+        return None
+    ft = 'pkl' if v % 2 else 'hdf5'
+    fn = P.path(f'{rec.short}_{v}.{ft}')
+    if v >= 2:
+        with open(fn, 'wb') as f:
+            f.write(b'previous content of the output file')
+    return dict(filename=fn, file_type=ft, overwrite=bool(v >= 2))
 
 
 @spec('rdm.transform.geotopological_transform')
@@ -1264,18 +1330,22 @@ def _n(P, kind):
     return 'index' if P.flavour == 'plain' else ('conds' if kind == 'pattern' else 'subj')
 
 
+def _inf_size(P):
+    return (8, 11) if P.flavour == 'big' else (5, 7)
+
+
 def _inf_data(P):
     keep = P.n_cond
-    P.n_cond = 7
+    n_rdm, P.n_cond = _inf_size(P)
     try:
-        return P.rdms(n_rdm=5, n_cond=7)
+        return P.rdms(n_rdm=n_rdm, n_cond=P.n_cond)
     finally:
         P.n_cond = keep
 
 
 def _model7(P, kind, name):
     keep = P.n_cond
-    P.n_cond = 7
+    P.n_cond = _inf_size(P)[1]
     try:
         return P.model(kind, name)
     finally:
@@ -1745,8 +1815,29 @@ def _invoke(case, tmp):
         call, args = build_call(rec, P, case['variant'])
     except Skip as e:
         raise NotExercised(f'skip: {e}')
+    if case['flavour'] in SEQ_FLAVOURS:
+        call = _seq_call(case, rec, P, call, tmp)
     np.random.seed(1000 + case['seed'])
     return rec, args, call
+
+
+def _seq_call(case, rec, P, call, tmp):
+    """call sequences: an EARLIER call of the same callable precedes the call under test -- 'twice': on the very same
+    arguments, 'warm': on other arguments of the same shapes (pool seed + 100).  The caller keeps the earlier result and
+    the earlier arguments; `seq.held` = their fingerprints (before, after) the later call."""
+    earlier_args = None
+    first_call = call
+    if case['flavour'] == 'warm':
+        first_call, earlier_args = build_call(rec, Pool(case['seed'] + 100, case['flavour'], tmp), case['variant'])
+
+    def seq():
+        first = first_call()
+        before = (fp(first), fp(earlier_args))
+        res = call()
+        seq.held = dict(result=(before[0], fp(first)), arguments=(before[1], fp(earlier_args)))
+        return res
+    seq.held = None
+    return seq
 
 
 def _base(case):
@@ -1816,6 +1907,14 @@ def frame_diffs(case):
                     continue
                 done.add(label)
                 out.append((label, f'{rec.short}({case["flavour"]},v{case["variant"]}) changed its argument {n}{desc}'))
+        held = getattr(call, 'held', None)
+        if held is not None and rec.qual not in MUTATORS and rec.qual not in VIEW_BY_CONTRACT:
+            # what the caller holds from the EARLIER call: its result, and its arguments when they are other objects ('warm')
+            for what in ('result', 'arguments'):
+                for comp, desc in fp_diff(*held[what])[:1]:
+                    label = f'{rec.short}:later-call-changes-earlier-{what}'
+                    out.append((label, f'{rec.short}({case["flavour"]},v{case["variant"]}): the later call changed the {what} of the '
+                                       f'earlier call, held by the caller: {what}{desc}'))
         return 'ok', out, info
     finally:
         shutil.rmtree(tmp, ignore_errors=True)
@@ -2284,6 +2383,62 @@ def sweep(thorough, visit, only=None):
     return exercised
 
 
+def dim_plan(rec, thorough):
+    """the (flavour, variant) pairs of the dimension sweep for one callable.
+    thorough: every flavour x every variant (two variants for the expensive callables).
+    quick: ONE case per family -- the flavour of the family and the variant rotate with the callable (crc of its name),
+    so that every callable meets every family and every flavour / variant is met by a share of the callables."""
+    import zlib
+    q = rec.qual
+    nv = MAX_VARIANTS if q in SPECS else AUTO_VARIANTS
+    save = 'filename' in inspect.signature(rec.func).parameters and rec.name == 'save'
+    if thorough:
+        if q in SLOW:
+            nv = min(nv, 2)
+        return [(fl, v) for fl in DIM_FLAVOURS for v in range(nv) if fl != 'exists' or save]
+    i = zlib.crc32(q.encode())
+    plan = []
+    for j, fam in enumerate(FAMILIES):
+        fls = [f for f in DIM_FLAVOURS if DIM_FLAVOURS[f] == fam]
+        if fam == 'environment':
+            if save:
+                plan += [('exists', 2), ('exists', 3)]
+            continue
+        if q in SLOW and (i + j) % 3:
+            continue
+        plan.append((fls[(i // 7 + j) % len(fls)], (i // 3 + j) % 3))
+    return plan
+
+
+def dim_sweep(thorough, visit, only=None, flavours=None):
+    """the dimension sweep: as `sweep`, over the flavours of DIM_FLAVOURS (seed 0)"""
+    n_ok = {}
+    for q, rec in recs().items():
+        if only and only not in q:
+            continue
+        dead = set()
+        for fl, v in dim_plan(rec, thorough):
+            if fl in dead or (flavours and fl not in flavours):
+                continue
+            case = dict(fn=q, flavour=fl, variant=v, seed=0)
+            st, diffs, info = _cached('frame', case, frame_diffs)
+            if st != 'ok' and not thorough and v:      # quick: this variant does not exist / is rejected -> the first one
+                case = dict(fn=q, flavour=fl, variant=0, seed=0)
+                st, diffs, info = _cached('frame', case, frame_diffs)
+            if st != 'ok':
+                if 'no such variant' in diffs:
+                    dead.add(fl)
+                continue
+            n_ok[fl] = n_ok.get(fl, 0) + 1
+            plan = plan_for(info, thorough)
+            fr = None
+            if plan and q not in MUTATORS and q not in VIEW_BY_CONTRACT:
+                pl = [list(x) for x in plan]
+                fr = (pl,) + _cached('fresh' + json.dumps(pl), case, lambda b: fresh_diffs(b, plan))
+            visit(rec, case, diffs, fr)
+    return n_ok
+
+
 def tier_c(run, thorough):
     bds = []
     n_rec = len(recs())
@@ -2382,3 +2537,24 @@ def dev_survey(thorough=False, only=None):
     for k, v in sorted(labels.items()):
         print(k, '\n      ', v[:300])
     print(len(labels), 'labels;', sum(1 for v in ex.values() if v > 0), 'exercised of', len(ex))
+
+
+def dev_dim_survey(thorough=True, only=None, flavours=None, out=None):
+    """development helper: labels per dimension flavour -> dict flavour -> {label: text}"""
+    import time
+    labels = {}
+
+    def visit(rec, case, diffs, fr):
+        d = labels.setdefault(case['flavour'], {})
+        for label, text in diffs:
+            d.setdefault(label, text)
+        if fr is not None and fr[1] == 'ok':
+            for label, text in fr[2]:
+                d.setdefault(label, text)
+    t0 = time.time()
+    n_ok = dim_sweep(thorough, visit, only, flavours)
+    print('calls per flavour', n_ok, f'{time.time() - t0:.1f}s')
+    if out:
+        with open(out, 'w') as f:
+            json.dump(labels, f, indent=1, sort_keys=True)
+    return labels
